@@ -374,45 +374,172 @@ def _check_ack(I, st, e):
 
 
 def sn_invariant(ctx, repo, pci):
-    """the own sequence number stays a 16-bit value: every assignment to self.sn in the handler class maps [0, 0xFFFF] into
-    [0, 0xFFFF] (interval evaluation), so the 2-octet S/N field of an answer can never overflow, whatever the history length"""
+    """the own sequence number stays a 16-bit value: every method of the handler class that assigns self.sn maps the invariant
+    self.sn in [0, 0xFFFF] at its entry to the same invariant at each of its exits (interval evaluation along the statements of the
+    method, with the branches of comparisons against constants refined) — inductive over any history length, so the 2-octet S/N
+    field of an answer can never overflow"""
     import ast as _ast
-    from sa.intervals import Iv, expr_interval
-    ctx.rule("sn/stays-16-bit", "every assignment to the handler's own sequence number keeps it within 0..0xFFFF, by interval evaluation from the invariant itself (inductive over any history)")
+    from sa.intervals import INF, Iv, expr_interval
+    ctx.rule("sn/stays-16-bit", "every method that assigns the handler's own sequence number re-establishes 0..0xFFFF at each of its exits, by interval evaluation from the invariant itself (inductive over any history)")
     n = 0
+    SN = "self.sn"
+
+    def key_of(e):
+        if isinstance(e, _ast.Name):
+            return e.id
+        if isinstance(e, _ast.Attribute) and isinstance(e.value, _ast.Name) and e.value.id == "self":
+            return f"self.{e.attr}"
+        return None
+
     for ci in [pci] + [c for c in repo.mro(pci)[1:]]:
         for fi in ci.methods.values():
-            for node in _ast.walk(fi.node):
-                tgt = None
-                if isinstance(node, (_ast.Assign, _ast.AnnAssign)) and node.value is not None:
-                    t = node.targets[0] if isinstance(node, _ast.Assign) else node.target
-                    if isinstance(t, _ast.Attribute) and isinstance(t.value, _ast.Name) and t.value.id == "self" and t.attr == "sn":
-                        tgt, val = t, node.value
-                elif isinstance(node, _ast.AugAssign) and isinstance(node.target, _ast.Attribute) and isinstance(node.target.value, _ast.Name) \
-                        and node.target.value.id == "self" and node.target.attr == "sn":
-                    tgt = node.target
-                    val = _ast.BinOp(left=_ast.Attribute(value=_ast.Name(id="self", ctx=_ast.Load()), attr="sn", ctx=_ast.Load()), op=node.op, right=node.value)
-                    _ast.copy_location(val, node)
-                    _ast.fix_missing_locations(val)
-                if tgt is None:
-                    continue
-                n += 1
-                try:
-                    # local names assigned (once, before this statement) from expressions over self.sn are evaluated first
-                    env = {"self.sn": Iv(0, 0xFFFF)}
-                    for st_ in _ast.walk(fi.node):
-                        if isinstance(st_, (_ast.Assign, _ast.AnnAssign)) and st_.value is not None and st_.lineno < node.lineno:
-                            t_ = st_.targets[0] if isinstance(st_, _ast.Assign) else st_.target
-                            if isinstance(t_, _ast.Name):
-                                try:
-                                    env[t_.id] = expr_interval(fi, st_.value, env, fold=lambda e, fi=fi, ci=ci: repo.fold_expr(e, fi.module, ci))
-                                except AnalysisError:
-                                    pass
-                    iv = expr_interval(fi, val, env, fold=lambda e, fi=fi, ci=ci: repo.fold_expr(e, fi.module, ci))
-                    ok = iv.lo >= 0 and iv.hi <= 0xFFFF
-                    detail = f"self.sn in [0, 0xffff]  =>  {_ast.unparse(val)} in {iv}"
-                except AnalysisError as e:
-                    ok, detail = False, None
-                    raise
-                ctx.ob("sn/stays-16-bit", f"{fi.qualname} | self.sn = {_ast.unparse(val)[:40]}", ok, detail, f"{fi.module.relpath}:{node.lineno}")
-    ctx.require("sn/stays-16-bit", 2)
+            assigns = [x for x in _ast.walk(fi.node) if isinstance(x, (_ast.Assign, _ast.AnnAssign, _ast.AugAssign))
+                       and any(key_of(t) == SN for t in (x.targets if isinstance(x, _ast.Assign) else [x.target]))]
+            if not assigns or fi.name == "__init__":
+                continue
+            n += 1
+            fold = lambda e, fi=fi, ci=ci: repo.fold_expr(e, fi.module, ci)
+            exits = []
+
+            def ev(e, env):
+                return expr_interval(fi, e, env, fold=fold)
+
+            def refine(test, env, truth):
+                """env restricted to the outcome `truth` of a comparison of a tracked value with a constant (else unchanged)"""
+                if isinstance(test, _ast.UnaryOp) and isinstance(test.op, _ast.Not):
+                    return refine(test.operand, env, not truth)
+                parts = None
+                if isinstance(test, _ast.Compare) and len(test.ops) > 1:     # a <= x < b  ==  (a <= x) and (x < b)
+                    seq = [test.left] + list(test.comparators)
+                    parts, conj = [_ast.copy_location(_ast.Compare(left=seq[i], ops=[test.ops[i]], comparators=[seq[i + 1]]), test) for i in range(len(test.ops))], True
+                elif isinstance(test, _ast.BoolOp):
+                    parts, conj = list(test.values), isinstance(test.op, _ast.And)
+                if parts is not None:
+                    if conj == truth:          # all parts have the outcome `truth`
+                        for p_ in parts:
+                            env = refine(p_, env, truth)
+                            if env is None:
+                                return None
+                        return env
+                    outs = [refine(p_, env, truth) for p_ in parts]   # at least one part has it
+                    outs = [o for o in outs if o is not None]
+                    if not outs:
+                        return None
+                    res = {k: v for k, v in outs[0].items() if all(k in o for o in outs)}
+                    for o in outs[1:]:
+                        res = {k: res[k].join(o[k]) for k in res}
+                    return res
+                if isinstance(test, _ast.Compare) and len(test.ops) == 1:
+                    l, r, op = test.left, test.comparators[0], test.ops[0]
+                    k = key_of(l)
+                    flip = False
+                    if k is None or k not in env:
+                        k, l, r, flip = key_of(r), r, l, True
+                    if k is not None and k in env:
+                        try:
+                            c = ev(r, env)
+                        except AnalysisError:
+                            return env
+                        if c.lo != c.hi:
+                            return env
+                        c = c.lo
+                        name = type(op).__name__
+                        if flip:
+                            name = {"Gt": "Lt", "GtE": "LtE", "Lt": "Gt", "LtE": "GtE"}.get(name, name)
+                        if not truth:
+                            name = {"Gt": "LtE", "GtE": "Lt", "Lt": "GtE", "LtE": "Gt", "Eq": "NotEq", "NotEq": "Eq"}.get(name, name)
+                        cur = env[k]
+                        lo, hi = cur.lo, cur.hi
+                        if name == "Gt":
+                            lo = max(lo, c + 1)
+                        elif name == "GtE":
+                            lo = max(lo, c)
+                        elif name == "Lt":
+                            hi = min(hi, c - 1)
+                        elif name == "LtE":
+                            hi = min(hi, c)
+                        elif name == "Eq":
+                            lo, hi = max(lo, c), min(hi, c)
+                        elif name == "NotEq":
+                            if lo == c:
+                                lo += 1
+                            if hi == c:
+                                hi -= 1
+                        if lo > hi:
+                            return None          # this outcome is impossible here
+                        env = dict(env)
+                        env[k] = Iv(lo, hi)
+                return env
+
+            def flow(stmts, env):
+                """env after the statements (None when every path has left the method)"""
+                for st_ in stmts:
+                    if env is None:
+                        return None
+                    if isinstance(st_, (_ast.Assign, _ast.AnnAssign)) and getattr(st_, "value", None) is not None:
+                        for t in (st_.targets if isinstance(st_, _ast.Assign) else [st_.target]):
+                            k = key_of(t)
+                            if k is None:
+                                continue
+                            try:
+                                env = dict(env)
+                                env[k] = ev(st_.value, env)
+                            except AnalysisError:
+                                if k == SN:
+                                    raise
+                                env.pop(k, None)
+                    elif isinstance(st_, _ast.AugAssign):
+                        k = key_of(st_.target)
+                        if k is not None:
+                            val = _ast.BinOp(left=_ast.copy_location(_ast.Attribute(value=_ast.Name(id="self", ctx=_ast.Load()), attr=k[5:], ctx=_ast.Load()), st_) if k.startswith("self.") else _ast.Name(id=k, ctx=_ast.Load()),
+                                             op=st_.op, right=st_.value)
+                            _ast.copy_location(val, st_)
+                            _ast.fix_missing_locations(val)
+                            try:
+                                env = dict(env)
+                                env[k] = ev(val, env)
+                            except AnalysisError:
+                                if k == SN:
+                                    raise
+                                env.pop(k, None)
+                    elif isinstance(st_, _ast.If):
+                        e1 = refine(st_.test, env, True)
+                        e2 = refine(st_.test, env, False)
+                        o1 = flow(st_.body, e1) if e1 is not None else None
+                        o2 = flow(st_.orelse, e2) if e2 is not None else None
+                        if o1 is None or o2 is None:
+                            env = o1 if o2 is None else o2
+                        else:
+                            env = {k: o1[k].join(o2[k]) for k in o1 if k in o2}
+                    elif isinstance(st_, (_ast.For, _ast.While, _ast.AsyncFor)):
+                        if any(key_of(t) == SN for x in _ast.walk(st_) if isinstance(x, (_ast.Assign, _ast.AnnAssign, _ast.AugAssign))
+                               for t in (x.targets if isinstance(x, _ast.Assign) else [x.target])):
+                            raise AnalysisError(f"{fi.qualname}: the sequence number is assigned inside a loop (no interval fixpoint implemented)")
+                    elif isinstance(st_, (_ast.With, _ast.AsyncWith)):
+                        env = flow(st_.body, env)
+                    elif isinstance(st_, _ast.Try):
+                        o = flow(st_.body, env)
+                        outs = [o] + [flow(h.body, env) for h in st_.handlers]
+                        outs = [x for x in outs if x is not None]
+                        env = None if not outs else {k: v for k, v in outs[0].items() if all(k in x for x in outs)}
+                        if env is not None:
+                            for x in outs[1:]:
+                                env = {k: env[k].join(x[k]) for k in env}
+                            env = flow(st_.finalbody, env)
+                    elif isinstance(st_, _ast.Return):
+                        exits.append((st_.lineno, env.get(SN)))
+                        return None
+                    elif isinstance(st_, _ast.Raise):
+                        return None
+                return env
+            try:
+                end = flow(fi.node.body, {SN: Iv(0, 0xFFFF)})
+                if end is not None:
+                    exits.append((fi.node.end_lineno, end.get(SN)))
+                bad = [(ln, iv) for ln, iv in exits if iv is None or iv.lo < 0 or iv.hi > 0xFFFF]
+                ok = not bad and bool(exits)
+                detail = f"self.sn in [0, 0xffff] at entry  =>  at the exits {[(ln, str(iv)) for ln, iv in exits][:4]}"
+            except AnalysisError:
+                raise
+            ctx.ob("sn/stays-16-bit", f"{fi.qualname} | {len(assigns)} assignment(s) to self.sn", ok, detail, f"{fi.module.relpath}:{(bad[0][0] if bad else assigns[0].lineno)}")
+    ctx.require("sn/stays-16-bit", 1)
